@@ -2,6 +2,7 @@
 package c05
 
 import (
+	"time"
 	"verif/harness/pol"
 	"verif/harness/sel"
 	"verif/harness/val"
@@ -147,3 +148,51 @@ func TestConcurrentChains(t *testing.T) { concChainsProp.Check(t) }
 var argOrderProp = h.Define(P, "argorder", chain.DrawArgOrder, func(c *h.Ctx, ac chain.ArgOrderCase) { chain.RunArgOrder(c, ac, "C05") })
 
 func TestArgOrder(t *testing.T) { argOrderProp.Check(t) }
+
+// TestOtherTimeZones: conforming chains in a process whose local time zone is not UTC (time.Now() carries time.Local),
+// with one token - each position in turn - that expires, or became active, 30 minutes, 2, 6 and 13 hours from / before
+// now: every token is valid now, wherever the process runs, so the chain is allowed.
+func TestOtherTimeZones(t *testing.T) {
+	saved := time.Local
+	defer func() { time.Local = saved }()
+	n := 0
+	for _, zone := range []int{-12 * 3600, -7 * 3600, -2 * 3600, 3600, 5*3600 + 45*60, 14 * 3600} {
+		time.Local = time.FixedZone(fmt.Sprintf("verif%+d", zone), zone)
+		for length := 1; length <= 3; length++ {
+			for pos := 0; pos <= length; pos++ {
+				for _, off := range []int64{1800, 2 * 3600, 6 * 3600, 13 * 3600} {
+					for _, kind := range []string{"valid-exp", "valid-nbf"} {
+						if pos == 0 && kind == "valid-nbf" {
+							continue
+						}
+						var cs chain.Case
+						cs.Inv = chain.Inv{Iss: 0, Sub: length % chain.NPrincipals, Aud: -1, NonceLen: 12, Cmd: "/foo"}
+						for i := 0; i < length; i++ {
+							iss := (i + 1) % chain.NPrincipals
+							if i == length-1 {
+								iss = cs.Inv.Sub
+							}
+							cs.Links = append(cs.Links, chain.Link{Iss: iss, Aud: i % chain.NPrincipals, Sub: cs.Inv.Sub, Cmd: "/foo", Nonce: byte(i)})
+						}
+						v := off
+						if kind == "valid-nbf" {
+							v = -off
+						}
+						switch {
+						case pos == 0:
+							cs.Inv.Exp = &v
+						case kind == "valid-exp":
+							cs.Links[pos-1].Exp = &v
+						default:
+							cs.Links[pos-1].Nbf = &v
+						}
+						cs.Dev = []string{fmt.Sprintf("%s@%d/%d zone%+d", kind, pos, length, zone)}
+						prop.One(t, cs)
+						n++
+					}
+				}
+			}
+		}
+	}
+	P.SetExtra("other_time_zone_chains", n)
+}
